@@ -647,6 +647,8 @@ def memfs_check(spec, tier, seed, replay=None):
     if not okh:
         V.violation('harness_build', dict(kind='build', what='the harness does not build against /repo', log=logh), no_input=True)
         return V.finish('proof', dict(obligations=1, discharged=0, checker_cmd='cargo build', trusted_base=[], explanation='harness build failed'), spec['assumptions'])
+    if 'pregen' in spec:
+        spec['pregen']()
     okd, logd, dtd = build_lean(['driver'])
     okl, logl, dtl = build_lean([spec['lean_mod']])
     if not okd:
@@ -672,11 +674,15 @@ def memfs_check(spec, tier, seed, replay=None):
         hists, geninfo = [rp['requests']] if rp.get('requests') and rp['requests'][0].startswith('new') else [['new eHOME=2f68'] + rp.get('requests', [])], dict(kind='replay', file=replay)
     else:
         hists, geninfo = spec['gen'](tier, rng)
+    if 'prepare' in spec:
+        spec['prepare'](hists)
     st = analyse_sessions(spec, hists, open_known, prop)
     searched = 0
     if (st['mismatch'] or proof_broken) and not st['new_fail'] and tier == 'quick' and not replay:
         wl, _ = spec['gen']('thorough', rng)
         wl = wl[:4000]
+        if 'prepare' in spec:
+            spec['prepare'](wl)
         searched = sum(len(h) for h in wl)
         st2 = analyse_sessions(spec, wl, open_known, prop + '_search')
         st['new_fail'] += st2['new_fail']
@@ -767,7 +773,7 @@ def analyse_sessions(spec, hists, open_known, tag):
             if nontrivial(req, x):
                 seen.add(hashlib.md5((prev.split(' ## ')[-1] + '#' + req).encode()).hexdigest())
             if judging:
-                j = spec['judge'](req, x, f, prev)
+                j = spec['judge'](req, x, f, prev, hi, i) if spec.get('judge_ctx') else spec['judge'](req, x, f, prev)
                 judged += 1
                 if j:
                     cls = f[2] if len(f) > 2 else '-'
